@@ -167,6 +167,52 @@ func wireTopic(t string) string {
 	return strings.ReplaceAll(t, "LONG", strings.Repeat("l", 130))
 }
 
+// specTopic is the inverse of wireTopic for topics the broker sends
+func specTopic(t string) string {
+	long := strings.Repeat("l", 130)
+	if !strings.Contains(t, long) {
+		return t
+	}
+	return strings.ReplaceAll(t, long, "LONG")
+}
+
+// fragConn cuts every write of a client into segments (-frag 1: after the first byte, 2: in the middle, 3: before the
+// last byte, 4: byte by byte for packets up to 64 bytes): what the broker makes of a packet may not depend on how the
+// transport delivers its bytes.
+type fragConn struct {
+	net.Conn
+	mode int
+}
+
+func (f fragConn) Write(p []byte) (int, error) {
+	cut := 0
+	switch {
+	case f.mode == 1 && len(p) > 1:
+		cut = 1
+	case f.mode == 2 && len(p) > 3:
+		cut = len(p) / 2
+	case f.mode == 3 && len(p) > 2:
+		cut = len(p) - 1
+	case f.mode == 4 && len(p) > 1 && len(p) <= 64:
+		for i := range p {
+			if _, err := f.Conn.Write(p[i : i+1]); err != nil {
+				return i, err
+			}
+		}
+		return len(p), nil
+	}
+	if cut == 0 {
+		return f.Conn.Write(p)
+	}
+	if n, err := f.Conn.Write(p[:cut]); err != nil {
+		return n, err
+	}
+	n, err := f.Conn.Write(p[cut:])
+	return cut + n, err
+}
+
+var fragMode = 0
+
 var payloadTags = []string{"x", "y", "z", "w", "w1", "w2", "w3", "B", "B2", "M", "p1", "p2"}
 
 func tagOf(b []byte) string {
@@ -231,7 +277,7 @@ func decodeRaw(p rawPkt) bPkt {
 		if tl < 0 || 2+tl > len(p.body) {
 			return bPkt{Ty: "MALFORMED-PUBLISH"}
 		}
-		m := bPkt{Ty: "PUBLISH", T: string(p.body[2 : 2+tl]), Q: int(p.first>>1) & 3, R: p.first&1 == 1, Dup: p.first&8 != 0}
+		m := bPkt{Ty: "PUBLISH", T: specTopic(string(p.body[2 : 2+tl])), Q: int(p.first>>1) & 3, R: p.first&1 == 1, Dup: p.first&8 != 0}
 		rest := p.body[2+tl:]
 		if m.Q > 0 {
 			if len(rest) < 2 {
@@ -652,7 +698,11 @@ func runBehaviour(steps []bStep, auth string, maxqos int, res *Result) *brokerMi
 		where := fmt.Sprintf("step %d %s", i, a.A)
 		switch a.A {
 		case "connect", "refuse":
-			cl, sv := net.Pipe()
+			cl0, sv := net.Pipe()
+			var cl net.Conn = cl0
+			if fragMode > 0 {
+				cl = fragConn{Conn: cl0, mode: fragMode}
+			}
 			bev.mu.Lock()
 			nAdmit := len(bev.admit)
 			bev.mu.Unlock()
@@ -761,7 +811,7 @@ func runBehaviour(steps []bStep, auth string, maxqos int, res *Result) *brokerMi
 			if a.Dup {
 				first |= 8
 			}
-			body := lp([]byte(a.T))
+			body := lp([]byte(wireTopic(a.T)))
 			if a.Q > 0 {
 				body = append(body, byte(a.ID>>8), byte(a.ID))
 			}
@@ -821,7 +871,7 @@ func runBehaviour(steps []bStep, auth string, maxqos int, res *Result) *brokerMi
 			}
 		case "apipublish":
 			msg := message.NewPublishMessage()
-			msg.SetTopic([]byte(a.T))
+			msg.SetTopic([]byte(wireTopic(a.T)))
 			msg.SetPayload(brokerPayload(a.Pl))
 			msg.SetQoS(byte(a.Q))
 			msg.SetRetain(a.R)
@@ -988,6 +1038,7 @@ func cmdBrokerReplay(a Args) {
 	maxKeptMismatches = 60
 	auth := a.str("auth", "mockSuccess")
 	maxqos := a.num("maxqos", 2)
+	fragMode = a.num("frag", 0)
 	retry := a.num("retry", 1)
 	err := readLines(a, func(line []byte) error {
 		var steps []bStep
